@@ -205,3 +205,175 @@ class front_end_en_absolute:
 
 
 CONTRACTS = [front_end_en_absolute]
+
+
+# ---------------------------------------------------------------------------------------------------
+# The kernel contracts of c_parser, re-stated at DateDataParser.get_date_data(languages=['en']): the
+# same cases, inputs and postconditions, with the English front end (sanitize_date, Locale('en')
+# applicability and translation, the parser chain) executed in front of `_parser` instead of being
+# assumed to hand the string through.  "Not recognised" (date_obj None) plays the part of the
+# kernel's ValueError.
+
+
+def _fe_parse(s, st):
+    import collections
+
+    from dateparser.date import DateDataParser
+
+    parser = DateDataParser.__new__(DateDataParser)
+    parser._settings = st
+    parser.try_previous_locales = False
+    parser.use_given_order = False
+    parser.languages = ["en"]
+    parser.locales = None
+    parser.region = None
+    parser.detect_languages_function = None
+    parser.previous_locales = collections.OrderedDict()
+    r = parser.get_date_data(s)
+    if r.date_obj is None:
+        raise ValueError("not recognised through the English front end")
+    return r.date_obj, r.period
+
+
+def through_front_end(kernel, props, pick=None, pick_thorough=None):
+    from dateparser.parser import _parser
+
+    class K:
+        name = "date.DateDataParser.get_date_data/en-front-end>" + kernel.name.split("parse/")[-1]
+        func = "dateparser.date.DateDataParser.get_date_data"
+
+        @staticmethod
+        def cases(thorough=False):
+            try:
+                cs = kernel.cases(thorough)
+            except TypeError:
+                cs = kernel.cases()
+            sel = pick_thorough if (thorough and pick_thorough is not None) else pick
+            return [c for i, c in enumerate(cs) if sel is None or sel(i, c)]
+
+        @staticmethod
+        def setup(inp, case):
+            import sys
+
+            mod = sys.modules[kernel.__module__]
+            hooked = hasattr(mod, "KERNEL_PARSE")
+            if hooked:
+                mod.KERNEL_PARSE = _fe_parse
+            try:
+                f, args, kwargs, ghost = kernel.setup(inp, case)
+            finally:
+                if hooked:
+                    mod.KERNEL_PARSE = None
+            if f == _parser.parse:
+                f = _fe_parse
+            elif not (hooked and getattr(f, "__name__", "") == "run2"):
+                raise AssertionError("kernel contract does not call _parser.parse directly")
+            return f, args, kwargs, ghost
+
+        post = staticmethod(kernel.post)
+
+    K.props = list(props)
+    K.__name__ = "fe_" + kernel.__name__
+    K.__qualname__ = K.__name__
+    return K
+
+
+def _build_wrapped():
+    from . import c_parser as P
+
+    out = []
+    # C07: every order, the separators '/' '.' (quick) or all four (thorough), plain two-digit fields
+    out.append(through_front_end(
+        P.numeric_order, ["C07"],
+        pick=lambda i, c: c.get("n1") == 2 and c.get("n2") == 2 and c.get("sep") in ("slash", "dot")
+        and not c.get("time"),
+        pick_thorough=lambda i, c: not c.get("time")))
+    # C08: completion of month-year / year-only forms
+    out.append(through_front_end(P.parse_incomplete, ["C08"], pick=lambda i, c: i % 6 == 0 and c.get("form") != "full-time",
+                                 pick_thorough=lambda i, c: i % 6 in (0, 3) and c.get("form") != "full-time"))
+    # C09: weekday / month / day-month / two-digit-year forms (no clock time: cheap through the front end)
+    out.append(through_front_end(P.weekday_only, ["C09"],
+                                 pick=lambda i, c: c["region"] != "time-frame-step" and i % 2 == 0,
+                                 pick_thorough=lambda i, c: c["region"] != "time-frame-step"))
+    out.append(through_front_end(P.month_only, ["C09"], pick=lambda i, c: i % 4 == 0))
+    out.append(through_front_end(P.day_month, ["C09"], pick=lambda i, c: i % 4 == 0))
+    out.append(through_front_end(P.two_digit_year, ["C09"], pick=lambda i, c: i % 3 == 0))
+    # C10: strictness through the front end (date-only families; the numeric layouts with the year last)
+    from . import c_strict as S
+
+    nt = lambda c: "time" not in c.get("family", "")
+    words = lambda c: nt(c) and not c.get("family", "").startswith("numeric-")
+    out.append(through_front_end(S.strictness_only_filters, ["C10"],
+                                 pick=lambda i, c: words(c) and i % 5 == 0,
+                                 pick_thorough=lambda i, c: nt(c) and i % 2 == 0))
+    out.append(through_front_end(S.strict_result_independent_of_now, ["C10"],
+                                 pick=lambda i, c: words(c),
+                                 pick_thorough=lambda i, c: nt(c)))
+    out.append(through_front_end(S.strict_needs_three_tokens, ["C10"],
+                                 pick=lambda i, c: nt(c) and i % 3 == 0,
+                                 pick_thorough=lambda i, c: nt(c)))
+    out.append(through_front_end(S.two_token_now_independence, ["C10"],
+                                 pick=lambda i, c: nt(c) and i % 9 == 0,
+                                 pick_thorough=lambda i, c: nt(c) and i % 2 == 0))
+    return out
+
+
+WRAPPED = _build_wrapped()
+for _k in WRAPPED:
+    globals()[_k.__name__] = _k
+CONTRACTS += WRAPPED
+
+
+class fe_relative_expression:
+    """C04 through the English front end: 'N units ago' / 'in N units' / bare 'N units' as a user
+    writes them (plural unit words), every count digit and the reference time symbolic; the
+    postcondition is the kernel contract's (independent calendar arithmetic, range, period)."""
+
+    name = "date.DateDataParser.get_date_data/en-front-end>relative-expression"
+    func = "dateparser.date.DateDataParser.get_date_data"
+    props = ["C04"]
+
+    @staticmethod
+    def cases(thorough=False):
+        from .c_fresh import relative_expression as R
+
+        # (the bare form 'N units' is not in the statement; past the range ends it falls through to
+        # the absolute parser, which reads '2 hours' as February - observed, not claimed)
+        cs = [c for c in R.cases(thorough) if not c.get("clock") and c["dir"] != "bare"]
+        if thorough:
+            return [c for i, c in enumerate(cs) if i % 2 == 0 or len(c["units"]) > 1]
+        return [c for i, c in enumerate(cs) if (len(c["units"]) == 1 and c["digits"] == [1] and i % 4 == 0)
+                or (len(c["units"]) == 2 and i % 8 == 0 and c["units"] != ["month", "week"])]
+
+    @staticmethod
+    def setup(inp, case):
+        import collections
+
+        from dateparser.date import DateDataParser
+        from pyvc.harness import build, make_settings
+
+        from .c_fresh import relative_expression as R
+
+        b = inp.datetime("b")
+        st = make_settings(RELATIVE_BASE=b, TIMEZONE="UTC", PREFER_DATES_FROM=case["PREFER_DATES_FROM"])
+        tpl = [p + "s" if (isinstance(p, str) and p in case["units"]) else p for p in R.template(case)]
+        s, f = build(inp, tpl)
+        parser = DateDataParser.__new__(DateDataParser)
+        parser._settings = st
+        parser.try_previous_locales = False
+        parser.use_given_order = False
+        parser.languages = ["en"]
+        parser.locales = None
+        parser.region = None
+        parser.detect_languages_function = None
+        parser.previous_locales = collections.OrderedDict()
+        return parser.get_date_data, (s,), {}, dict(b=b, f=f)
+
+    @staticmethod
+    def post(case, g, out):
+        from .c_fresh import relative_expression as R
+
+        return R.post(case, g, out)
+
+
+CONTRACTS += [fe_relative_expression]
